@@ -28,12 +28,13 @@ Inductive verr :=
 | VNotImpl     (* NotImplementedError *)
 | VInfeasible  (* InfeasibleRegion *)
 | VAssert      (* AssertionError *)
-| VArith.      (* FloatingPointError / ZeroDivisionError (np.seterr divide, invalid = raise) *)
+| VArith       (* FloatingPointError / ZeroDivisionError (np.seterr divide, invalid = raise) *)
+| VShape.      (* IndexError: numpy mask / operand shapes do not match *)
 
 Definition verr_eqb (a b : verr) : bool :=
   match a, b with
   | VNoEq, VNoEq | VRuntime, VRuntime | VNotImpl, VNotImpl
-  | VInfeasible, VInfeasible | VAssert, VAssert | VArith, VArith => true
+  | VInfeasible, VInfeasible | VAssert, VAssert | VArith, VArith | VShape, VShape => true
   | _, _ => false
   end.
 
@@ -259,6 +260,9 @@ Definition lever (c : ctx) (x y : vec) (m : mach) : vres mach :=
   let sf := (z0 - nthq x 0) / den in
   if negb (qltb c_lo sf && qltb sf c_hi) then VErr VInfeasible m else
   let sf := if qltb 1 sf then 1 else if qltb sf 0 then 0 else sf in
+  (* a y= composition whose length is not the number of chemicals in equilibrium (N == 2 can also be one volatile chemical
+     plus non-condensable gas / solute): `v[mask] = mol_vle[mask]` raises IndexError *)
+  if negb (Nat.eqb (length y) (length (idx c))) then VErr VShape m else
   (* v = F_mol * split_frac * y;  mask = v > mol_vle;  v[mask] = mol_vle[mask]   (clip added by /repo dd55412) *)
   let v := capv (vscale (Fmol c * sf) (fit (length (idx c)) y)) (molv c) in
   VOk (mset m (set_flows c v (ms m))).
